@@ -534,6 +534,26 @@ func (e *Analysis[S]) runBlock(fc *FlowCtx[S], b *cfg.Block, st fstate[S], ftype
 						x.s = e.Copy(*boundSplit.nonNilS)
 						*exits = append(*exits, exitInfo[S]{st: x, ret: ret, cls: nonNil})
 					}
+				} else if sp := e.returnedSplit(ret, st); sp != nil {
+					// "x, err = helper(...); return err": the variable still stands for the
+					// callee's result, so this function's exits are the callee's, class by class.
+					robj := objOf(e.Info, unparen(ret.Results[len(ret.Results)-1]))
+					if sp.nilS != nil {
+						x := e.copyState(st)
+						x.s = e.Copy(*sp.nilS)
+						if !sp.boolean {
+							x.nils[robj] = isNil
+						}
+						*exits = append(*exits, exitInfo[S]{st: x, ret: ret, cls: isNil})
+					}
+					if sp.nonNilS != nil {
+						x := e.copyState(st)
+						x.s = e.Copy(*sp.nonNilS)
+						if !sp.boolean {
+							x.nils[robj] = nonNil
+						}
+						*exits = append(*exits, exitInfo[S]{st: x, ret: ret, cls: nonNil})
+					}
 				} else {
 					*exits = append(*exits, exitInfo[S]{st: e.copyState(st), ret: ret, cls: cls})
 				}
@@ -545,6 +565,26 @@ func (e *Analysis[S]) runBlock(fc *FlowCtx[S], b *cfg.Block, st fstate[S], ftype
 		}
 	}
 	return st, nret
+}
+
+// returnedSplit: the last result of ret is a variable that was bound to the classified exits
+// of a call (wrapper or helper analysed in place) and nothing has changed the state since.
+func (e *Analysis[S]) returnedSplit(ret *ast.ReturnStmt, st fstate[S]) *split[S] {
+	if len(ret.Results) == 0 || st.splits == nil {
+		return nil
+	}
+	obj := objOf(e.Info, unparen(ret.Results[len(ret.Results)-1]))
+	if obj == nil {
+		return nil
+	}
+	sp := st.splits[obj]
+	if sp == nil || sp.base == nil || !e.Equal(st.s, *sp.base) || sp.nilS == nil && sp.nonNilS == nil {
+		return nil
+	}
+	if !sp.boolean && st.nils[obj] != nilUnknown {
+		return nil // a test has already selected the class
+	}
+	return sp
 }
 
 func (e *Analysis[S]) wrapperOf(call *ast.CallExpr) *Wrapper {
